@@ -120,7 +120,13 @@ def random_decide(tier, seed, n=None):
                 d = 7
             total += d
             steps.append({"op": "tick", "d": d})
-            steps.append({"op": "req", "rq": rand_probe(r), "ans": [rand_validation(r, st), rand_validation(r, st)]})
+            probe = rand_probe(r)
+            if r.random() < 0.06:  # the same directives on a request the cache never answers from its store
+                if r.random() < 0.5:
+                    probe["range"] = 1
+                else:
+                    probe["m"] = r.choice(METHODS)
+            steps.append({"op": "req", "rq": probe, "ans": [rand_validation(r, st), rand_validation(r, st)]})
             if d == CAP:
                 break
         out.append({"id": "rnd/%06d" % i, "backend": "fs" if i % 16 == 0 else ("fsenc" if i % 16 == 8 else "mem"),
@@ -128,7 +134,9 @@ def random_decide(tier, seed, n=None):
     return out
 
 
-SELS = [[0, 0, 0, 0], [0, 0, 1, 0], [0, 0, 2, 0], [0, 0, 1, 1], [0, 0, 1, 2], [1, 0, 1, 0], [2, 1, 0, 0], [0, 0, 3, 0], [0, 0, 2, 3]]
+# (values 4 and 5 of X-A are two different byte strings that are not UTF-8)
+SELS = [[0, 0, 0, 0], [0, 0, 1, 0], [0, 0, 2, 0], [0, 0, 1, 1], [0, 0, 1, 2], [1, 0, 1, 0], [2, 1, 0, 0], [0, 0, 3, 0], [0, 0, 2, 3],
+        [0, 0, 4, 0], [0, 0, 5, 0], [0, 0, 4, 2]]
 VARYS = [([], 0), ([2], 0), ([2, 3], 0), ([3], 0), ([3, 2], 0), ([0], 0), ([0, 1, 2], 0), ([], 1)]
 
 
@@ -159,6 +167,34 @@ def random_vary(tier, seed, n=None):
             steps.append({"op": "tick", "d": d})
         out.append({"id": "rndvary/%06d" % i, "backend": "fs" if i % 10 == 0 else ("fsenc" if i % 10 == 5 else "mem"),
                     "opt": {}, "steps": steps, "grp": "", "spv": 0})
+    return out + refresh_cycles(tier)
+
+
+def refresh_cycles(tier):
+    """two or three variants of one resource; one of them expires and is refreshed again and again (in the foreground or
+    under stale-while-revalidate, by 304 or by a new representation) while the others stay fresh: they must still be served
+    from the store afterwards, and so must the refreshed one"""
+    out = []
+    i = 0
+    for swr in (NONE, 1000):
+        for how in ("304", "full", "mixed"):
+            for first in (1, 2):        # which variant is stored first
+                for cycles in (2, 3):
+                    for nvar in (2, 3):
+                        order = [first] + [v for v in (1, 2, 3)[:nvar] if v != first]
+                        steps = []
+                        for v in order:
+                            steps += [{"op": "req", "rq": rq(sel=[0, 0, v, 0]), "ans": [ans(ccp=1, ma=5 if v == 1 else 100000, swr=swr, etag=v, vary=[2])]},
+                                      {"op": "tick", "d": 1}]
+                        for c in range(cycles):
+                            k = how if how != "mixed" else ("304" if c % 2 == 0 else "full")
+                            a = ans(k="304", st=304, ccp=1, ma=5, swr=swr, etag=1) if k == "304" else ans(ccp=1, ma=5, swr=swr, etag=1, vary=[2])
+                            steps += [{"op": "tick", "d": 9}, {"op": "req", "rq": rq(sel=[0, 0, 1, 0]), "ans": [a, ans(ccp=1, ma=5, swr=swr, etag=1, vary=[2])]},
+                                      {"op": "tick", "d": 1}]
+                        for v in (2, 3)[:nvar - 1] + (1,):
+                            steps += [{"op": "req", "rq": rq(sel=[0, 0, v, 0]), "ans": [ans(ccp=1, ma=100000, etag=7, vary=[2])]}]
+                        out.append({"id": "refresh/%03d" % i, "backend": "fs" if i % 5 == 0 else "mem", "opt": {}, "steps": steps, "grp": "", "spv": 0})
+                        i += 1
     return out
 
 
@@ -274,6 +310,10 @@ def periodic(tier, seed, n=None):
         elapsed = 0
         sels = [list(s) for s in r.sample(SELS, 3)]
         varys = r.sample(VARYS, 3)
+        if i % 2 == 1:  # a selecting value that is not UTF-8, nominated by the origin
+            sels[0] = [0, 0, r.choice([4, 5]), 0]
+            if ([2], 0) not in varys:
+                varys[1] = ([2], 0)
         if i % 2 == 0 and ([], 1) not in varys:
             varys[0] = ([], 1)
         pattern = []
@@ -301,6 +341,19 @@ def periodic(tier, seed, n=None):
                 elapsed += d
                 steps.append({"op": "tick", "d": d})
         out.append({"id": "periodic/%04d" % i, "backend": "fs" if i % 3 == 2 else "mem", "opt": {}, "steps": steps, "grp": "", "spv": 0})
+    # an origin that always nominates the same field, and clients whose values for it include byte strings that are not UTF-8
+    for j in range(2 if tier == "quick" else 12):
+        sels = [[0, 0, 4, 0], [0, 0, r.choice([1, 2]), 0], [0, 0, 5, 0]]
+        v = r.choice([[2], [2, 3]])
+        steps = []
+        for _ in range(rounds):
+            for sel in sels:
+                ma = r.choice([0, 2, 50])
+                a = ans(ccp=1, ma=ma, vary=v, etag=1)
+                b = ans(k="304", st=304, ccp=1, ma=r.choice([2, 50]), etag=1) if r.random() < 0.3 else a
+                steps.append({"op": "req", "rq": rq(u=j % 2, sel=sel), "ans": [b, a]})
+                steps.append({"op": "tick", "d": r.choice([0, 1, 3])})
+        out.append({"id": "periodic/nonutf8-%02d" % j, "backend": "fs" if j % 2 else "mem", "opt": {}, "steps": steps, "grp": "", "spv": 0})
     return out
 
 
@@ -577,6 +630,16 @@ def kv_cuts(tier, seed, n=None):
                     {"op": "set_kill", "k": 1, "v": 1, "cut": step}, {"op": "get", "k": 1}, {"op": "keys", "p": -1},
                     {"op": "reopen"}, {"op": "get", "k": 1}, {"op": "set", "k": 1, "v": 0}, {"op": "get", "k": 1}, {"op": "keys", "p": -1}]
                 out.append({"id": "kill/%s-%d-%d-%d" % (be, prev, step, i), "backend": be, "keys": keys, "vals": vals, "ops": ops})
+    # a write that outlasts the store's operation timeout (held at every step of set) while the caller reuses its buffer
+    for be in ("fs", "fsenc"):
+        for prev in (False, True):
+            for point in ("set:begin", "set:created", "set:written", "set:closed"):
+                i += 1
+                vals = [{"len": 33, "seed": 5}, {"len": 5000, "seed": 2000 + i}]
+                ops = ([{"op": "set", "k": 0, "v": 0}] if prev else []) + [
+                    {"op": "set_slow", "k": 0, "v": 1, "how": point}, {"op": "get", "k": 0}, {"op": "keys", "p": -1},
+                    {"op": "reopen"}, {"op": "get", "k": 0}, {"op": "set", "k": 0, "v": 0}, {"op": "get", "k": 0}]
+                out.append({"id": "slow/%s-%d-%s" % (be, prev, point.replace(":", "")), "backend": be, "keys": keys, "vals": vals, "ops": ops})
     return out + kv_stress(tier)
 
 
@@ -656,10 +719,12 @@ def kv_crypto(tier, seed, n=None):
             "dsn_badkey", "dsn_shortkey", "dsn_env_ok", "dsn_env_empty", "dsn_env_bad"]
     hows += ["%s_len:%d" % (w, n) for w in ("opt", "dsn", "env") for n in (1, 8, 15, 16, 17, 23, 24, 25, 31, 32, 33, 40, 48, 64)]
     for be in ("fsenc",):
-        for rnd in range(2 if tier == "quick" else 10):
-            ks = [base64.b64encode(b"ek-%d" % i).decode() for i in range(8)]
-            out.append({"id": "encstress/%d" % rnd, "backend": be, "keys": ks, "vals": [{"len": 64, "seed": 77}],
-                        "ops": [{"op": "encstress", "k": 0, "v": 0, "n": 8, "cut": 150}] + [{"op": "get", "k": i} for i in range(8)]})
+        # (the window in which two overlapping Sets can disturb each other's nonce is a few instructions wide and invisible
+        # to the race detector - the random bytes are written by the kernel - so this runs long enough to hit it)
+        for rnd in range(6 if tier == "quick" else 40):
+            ks = [base64.b64encode(b"ek-%d" % i).decode() for i in range(16)]
+            out.append({"id": "encstress/%d" % rnd, "backend": be, "keys": ks, "vals": [{"len": 16 + rnd, "seed": 77}],
+                        "ops": [{"op": "encstress", "k": 0, "v": 0, "n": 16, "cut": 500}] + [{"op": "get", "k": i} for i in range(16)]})
     for how in hows:
         out.append({"id": "open/" + how, "backend": "fs", "keys": keys, "vals": vals, "ops": [{"op": "open_enc", "how": how, "v": 0}]})
     return out
